@@ -13,6 +13,9 @@ def plan(tier, seed):
     jobs.append(ch("C02", G, "h_simple_new", t, ["writer.write_simple", "writer.make_part_file"]))
     jobs.append(ch("C02", G, "h_multi_append", t, ["writer.write_multi", "writer.make_part_file",
                                                    "writer.write_common_metadata", "writer.find_max_part"]))
+    jobs.append(ch("C02", "vf/pyshim/h_rowgroup.py", "h_make_row_group", t, ["writer.make_row_group"]))
+    jobs.append(ch("C02", "vf/pyxlift/h_footer.py", "h_common_metadata", t,
+                   ["writer.write_common_metadata", "cencoding.ThriftObject.to_bytes (compiled, concrete)"]))
     jobs.append(ch("C02", H, "h_levels_no_nulls", t, ["writer.make_definitions", "core.skip_definition_bytes"]))
     jobs.append(ch("C02", H, "h_levels_with_nulls", t, ["writer.make_definitions (pages with NULLs)"]))
     jobs.append(dict(name="C02-lemma-dict-index-framing", kind="pyfunc", timeout=300,
